@@ -782,6 +782,13 @@ static void setup(const Plan &plan) {
             if (pl->P("cut_dir", -1) == 0) x->dying = true;
             if (CX->relay) {
                 uint8_t hb = (uint8_t)c;
+                // byte-stream legs: the hello goes out once the connection is established - a hello refused during the TLS handshake
+                // is transmitted all the same (the endpoint's own btls defect, KF-C02-1) and its retry would arrive as a second hello
+                for (int i = 0; i < 100000 && CX->stream && x->nonblocking && !G->stopping; i++) {
+                    if (x_finish(x) == 0 || (errno != EAGAIN && errno != EINTR)) break;
+                    x_await(x, XCM_SO_SENDABLE);
+                    if (!x_wait(x)) break;
+                }
                 for (int i = 0; i < 100000 && !G->stopping; i++) {
                     int rc = x_send(x, &hb, 1);
                     if (rc >= 0) break;
